@@ -200,6 +200,18 @@ class World:
                 continue
             op = {"id": op_id, "k": kind, "sub": sub, "h": h, "keep": orng.random() < self.cfg.get("keep_prob", 0.4)}
             op.update(args)
+            if kind == "copy" and orng.random() < (0.35 if self.prop in ("C06", "C12", "C05") else 0.1):
+                # pattern: copy -> remove the copy -> (drop, collect) -> copy the same source again
+                dh = op["dh"] if op["dh"] in self.h else h
+                rm_kind = "rm_ws" if orng.random() < 0.7 else "rm_parent"
+                self.pending = [
+                    {"id": -1, "k": rm_kind, "sub": rng.getrandbits(64), "h": dh, "keep": False, "t": {"by": op_id, "n": 0, "fb": 0, "want": "entity"}},
+                    {"id": -1, "k": "drop", "sub": rng.getrandbits(64), "h": dh, "keep": False, "which": 0, "all": True},
+                    {"id": -1, "k": "gc", "sub": rng.getrandbits(64), "h": dh, "keep": False},
+                    {**op, "sub": rng.getrandbits(64)},
+                ]
+                if orng.random() < 0.4:
+                    del self.pending[1:3]
             if kind == "add_data" and op.get("pg") and op["assoc"] != "OBJECT" and orng.random() < 0.6:
                 # burst: more data of the same association into the same property group of the same object
                 self.pending = []
